@@ -11,7 +11,11 @@ void vs_reset(void);                                  /* new scenario */
 void vs_name(const void *addr, const char *fmt, ...); /* symbolic cell name for the log */
 void vs_name_range(const void *base, unsigned long stride, unsigned long count, const char *prefix);
 int vs_spawn(void (*fn)(void *), void *arg);          /* returns tid (0,1,..) */
-/* schedule spec: "rand <seed> <stick%> <spur%> <cvspur%>"  or  "list <spur-indices,>|- t0 t1 t2 ..." */
+/* schedule spec: "rand <seed> <stick%> <spur%> <cvspur%> [<fspur%> [<fwake%>]]"  or
+ * "list <spur-indices,>|- t0 t1 t2 ...".  Optional futex-wait choices (default off): a
+ * muggle_sync_wait that would block returns -1/EINTR instead (logged "E t fwait cell none val cur 2")
+ * with probability fspur%, or 0 as a spurious wake-up (c = 3) with probability fwake%; in list mode the
+ * spur-indices token may contain "f<k>" / "w<k>" = the k-th would-block futex wait is interrupted / woken. */
 void vs_set_schedule(const char *spec);
 void vs_set_budget(long steps);
 /* runs all spawned threads to completion; returns 0 ok, 1 deadlock, 2 livelock (the event
